@@ -191,7 +191,16 @@ def coqc_file(path: Path, timeout=600):
 def property_files(pid: str):
     """Properties/<pid>.v and Properties/<pid>_<unit>.v (one file per unit is allowed)."""
     d = THEORIES / "Properties"
-    return sorted([p for p in d.glob("%s.v" % pid)] + [p for p in d.glob("%s_*.v" % pid)])
+    files = sorted([p for p in d.glob("%s.v" % pid)] + [p for p in d.glob("%s_*.v" % pid)])
+    only = only_units()
+    if only:   # development aid: VERIF_ONLY=tsp,atsp restricts a run to the named units/adapters
+        files = [p for p in files if p.stem == pid or p.stem.split("_", 1)[1] in only]
+    return files
+
+
+def only_units():
+    v = os.environ.get("VERIF_ONLY", "").strip()
+    return set(x.strip() for x in v.split(",") if x.strip()) if v else None
 
 
 def target_uptodate(src: Path) -> bool:
